@@ -220,3 +220,14 @@ Definition split_rmw : list (string * string) :=
   filter (fun x => negb (existsb (fun y => String.eqb (fst x) (fst y) && String.eqb (snd x) (snd y)) rmw_exempt))
     (flat_map (fun m => map (fun f => (m_name m, f)) (filter (fun f => negb (rmw_one m f)) (rmw_fields m))) entries).
 Definition rmw_ok : bool := match split_rmw with [] => true | _ => false end.
+
+(* ---------- request/response rendezvous (C13/Rendezvous.v): the handler of an inbound response hands it to the waiting
+   requester over an unbuffered channel; its send must be abandonable (inside a select with a time-out clause), or a
+   response that arrives when the requester has left blocks its goroutine for good ---------- *)
+Definition rendezvous_handlers : list string :=
+  ["messagepickup.Service.handleStatus"; "messagepickup.Service.handleBatch"; "mediator.Service.handleKeylistUpdateResponse"].
+Definition sends_of (f : string) : list (string * string * bool) :=
+  filter (fun x => String.eqb (fst (fst x)) f) chan_sends.
+Definition unbounded_handlers : list string :=
+  filter (fun f => match sends_of f with [] => true | l => negb (forallb snd l) end) rendezvous_handlers.
+Definition rendezvous_sends_bounded : bool := match unbounded_handlers with [] => true | _ => false end.
